@@ -35,7 +35,7 @@ func VerifHarness_C06() {
 	case 1:
 		o.ScaleOnStarve = true
 	case 2:
-		o.MaxNodeAge = []string{"1h", "100m"}[verifChoice("maxNodeAge", 2)]
+		o.MaxNodeAge = []string{"1h", "100m", "-1h"}[verifChoice("maxNodeAge", 3)] // (a negative value validates and means "off")
 	}
 	auto := verifShape(7) == 1 // min_nodes/max_nodes left out: the bounds are the cloud group's own, re-read every scan
 	asgMin0 := int64(0)
@@ -45,6 +45,9 @@ func VerifHarness_C06() {
 		if verifShape(6) == 1 {
 			asgMin0 = verifInt("asg.min.before", 0, int64(N)) // what the earlier scan discovered
 		}
+	}
+	if !auto && verifShape(10) == 1 {
+		asgMin0 = verifInt("asg.min", 0, int64(N)) // the cloud group's own minimum is none of the band's business when min_nodes is configured
 	}
 	g := w.addGroup(o, asgMin0, maxEff, 0)
 	classes := [][]int{{tcNone}, {tcNone, tcEsc}, {tcNone, tcEscGarbage, tcEscEmpty, tcForce}}[menu]
@@ -63,6 +66,9 @@ func VerifHarness_C06() {
 		w.symPods("", g, P, 1, false, 10, false)
 	} else {
 		w.symPods("", g, P, 1, false, -3*w.cpuPerNode, false)
+	}
+	if verifShape(11) == 1 && len(w.pods) > 0 {
+		w.terminating(w.pods[0], true) // the first listed pod is being deleted but still running: it counts like any other
 	}
 	w.build()
 	if verifShape(6) == 1 {
@@ -115,6 +121,9 @@ func VerifHarness_C06() {
 			limit := int64(3600)
 			if o.MaxNodeAge == "100m" {
 				limit = 6000
+			}
+			if o.MaxNodeAge == "-1h" {
+				limit = 1 << 40 // never
 			}
 			anyOld := false
 			for _, n := range w.nodes {
